@@ -2,7 +2,7 @@ PROP = {
     "id": "C07",
     "harness": "c07",
     "driver": "c07",
-    "n_quick": 3,
+    "n_quick": 8,
     "n_thorough": 300,
     "harness_timeout": 2400,
     "trusted": [
